@@ -716,7 +716,10 @@ def replay(contract_id, case, clause_name, params, raised=None, schedule=None):
     if kind != "ok":
         obs["native_exception"] = f"{exc_name(res)}: {res}"[:500] if kind == "raise" else None
         return {"confirmed": False, "observation": obs}
-    ncl = [c for c in contract.clauses(Pn, res, case) if c.name == clause_name]
+    try:
+        ncl = [c for c in contract.clauses(Pn, res, case) if c.name == clause_name]
+    except Exception as e:  # noqa  (the contract's own code failed on the native objects: nothing is confirmed)
+        return {"confirmed": False, "observation": dict(obs, error=f"clauses() on the native objects raised {type(e).__name__}: {e}"[:500])}
     if not ncl:
         return {"confirmed": False, "observation": {"error": "clause not produced natively"}}
     cl = ncl[0]
